@@ -308,7 +308,7 @@ def execute_ops(pid, ops_lines, workdir, exe, tag="x"):
                           timeout=PROPS[pid].get("run_timeout", 7200))
         except subprocess.TimeoutExpired:
             rc, out = 124, "harness timeout"
-        got = open(impl_path).read().split("\n") if os.path.exists(impl_path) else []
+        got = open(impl_path, errors="replace").read().split("\n") if os.path.exists(impl_path) else []
         if got and got[-1] == "":
             got.pop()
         got = got[len(pre):]
@@ -558,7 +558,7 @@ def decide(pid, cfg, args, workdir, t_start):
             tie_broken.append(("harness-gen", out[-1500:]))
             gen_lines = []
         else:
-            gen_lines = [ln for ln in open(ops_path).read().split("\n") if ln]
+            gen_lines = [ln for ln in open(ops_path, errors="replace").read().split("\n") if ln]
         pre_ops = cfg.get("prelude_ops", [])
         prelude = [ln for ln in gen_lines if ln.split(" ")[0] in pre_ops]
         lines = prelude + [ln for _fn, ln in corpus] + [ln for ln in gen_lines if ln.split(" ")[0] not in pre_ops]
@@ -636,7 +636,7 @@ def decide(pid, cfg, args, workdir, t_start):
                 rc, out = run([exe, "gen", pid, cfg.get("search_tier", "quick"), str(s2), ops_path], env=env, timeout=3600)
                 if rc != 0:
                     continue
-                lines = [ln for ln in open(ops_path).read().split("\n") if ln]
+                lines = [ln for ln in open(ops_path, errors="replace").read().split("\n") if ln]
                 cs = execute_ops(pid, lines, workdir, exe, tag=f"search{s2}")
                 tried += len(cs)
                 bad = [c for c in cs if not c.prop_ok and not is_known(c)]
